@@ -156,6 +156,16 @@ def cases_for(tier):
                             if n == 5 and (ugp, cfg) not in ((False, False),):
                                 continue
                             out.append({"form": form, "n": n, "edges": es, "acyclic": acyclic, "ugp": ugp, "cfg": cfg})
+    # multigraphs: parallel edges (same and opposite orientation) do not change connectivity, only trees
+    for n in (2, 3):
+        for edges in graphref.multigraphs(n, 4 if n == 2 else 4, 2 if n == 3 else 3):
+            if len(edges) == len(set(edges)):
+                continue
+            for var in (0, 3):
+                es = graphref.orient(edges, var)
+                for acyclic in (False, True):
+                    for ugp in (False, True):
+                        out.append({"form": "vars", "n": n, "edges": es, "acyclic": acyclic, "ugp": ugp, "cfg": False})
     # selected 6-vertex graphs
     six = {
         "path6": [(i, i + 1) for i in range(5)],
@@ -240,7 +250,7 @@ def main(tier, seed, only=None):
         seed,
         "exploration",
         "all labelled simple graphs with n<=%d vertices (n<=4 in 3 edge-list presentations: as is, every pair reversed, alternating), "
-        "5 selected 6-vertex graphs, all grid shapes with <= %d cells (BoolArray2D form); all 2^n activity patterns; is_active as "
+        "multigraphs on 2-3 vertices with parallel edges in both orientations, 5 selected 6-vertex graphs, all grid shapes with <= %d cells (BoolArray2D form); all 2^n activity patterns; is_active as "
         "variables / BoolArray1D / negated variables / Python constants / mixed variable-constant lists / x==y over two vectors "
         "(all 4^n underlying assignments, n<=3); acyclic off/on; use_graph_primitive False / True / None with the config flag off/on. "
         "Scale family (not exhaustive): on boards up to %s the serpentine corridor, its one-cell perturbations, the full board, a closed cycle, "
